@@ -164,6 +164,19 @@ pub fn replay(input: &str, output: &str) {
         sets.push((format!("random-{}", k), p));
     }
     for (n, (name, p)) in sets.iter().enumerate() {
+        // (every third description was printed once before its offsets, sign corrections and DOF were assigned through
+        //  the public fields: what is printed is the object as it is now)
+        let mut holder = *p;
+        if n % 3 == 2 {
+            holder.offsets = [0.0; 6];
+            holder.sign_corrections = [1; 6];
+            holder.dof = if p.dof == 5 { 6 } else { 5 };
+            let _ = guarded(|| holder.to_yaml());
+            holder.offsets = p.offsets;
+            holder.sign_corrections = p.sign_corrections;
+            holder.dof = p.dof;
+        }
+        let p = &holder;
         let mut text = p.to_yaml();
         // every second file carries the limits as the library prints them (Constraints::to_yaml): the section is not
         // read back, the parameters in front of it are; the printed limits are the limits to the printed precision
@@ -263,6 +276,17 @@ pub fn replay(input: &str, output: &str) {
         evals += 1;
         if let Parsed::Panic = parse_text(bytes, "bad", n) {
             out.put(json!({"sig": format!("yaml:malformed-file-panics:{}", if name.starts_with("fuzz") { "fuzzed" } else { name }), "detail": format!("{:?}", String::from_utf8_lossy(bytes)), "data": {"bytes": bytes}}));
+        }
+        // a well-formed file read right after it (after every hand-written one, after every twentieth fuzzed one) means
+        // what it says, whatever was read before
+        if !name.starts_with("fuzz") || n % 20 == 0 {
+            evals += 1;
+            let w = Parameters::irb2400_10();
+            let ok = match parse_text(good.as_bytes(), "after-bad", n) {
+                Parsed::Ok(g) => lens_of(&g) == lens_of(&w) && g.sign_corrections == w.sign_corrections && g.dof == w.dof && (0..6).all(|i| (g.offsets[i] - w.offsets[i]).abs() < 1e-6),
+                _ => false,
+            };
+            if !ok { out.put(json!({"sig": "yaml:well-formed-file-misread-after-a-malformed-one", "detail": format!("after {:?}", String::from_utf8_lossy(bytes))})); }
         }
     }
     out.put(json!({"stats": {"lines": lines.len(), "evaluations": evals, "nontrivial": nontrivial}}));
